@@ -102,6 +102,23 @@ def design_mc(module, cfg, workdir, workers=None, timeout=3600, xmx='4g', extra_
     return r
 
 
+def run_tlapm(module, workdir, timeout=900):
+    """Check the TLAPS proofs of spec/<module>.tla (unbounded lemmas about the oracle); machinery error on failure."""
+    dst = tempfile.mkdtemp(prefix='tlapm-', dir=workdir)
+    shutil.copy(os.path.join(SPEC, module + '.tla'), dst)
+    t0 = time.time()
+    try:
+        p = subprocess.run(['tlapm', module + '.tla'], cwd=dst, stdout=subprocess.PIPE, stderr=subprocess.STDOUT,
+                           text=True, timeout=timeout)
+    except (subprocess.TimeoutExpired, FileNotFoundError) as exc:
+        raise MachineryError(f'tlapm failed: {exc}')
+    m = re.search(r'All (\d+) obligations? proved', p.stdout)
+    if not m:
+        raise MachineryError('TLAPS proofs not all discharged:\n' + p.stdout[-2000:])
+    return {'module': module, 'cfg': 'tlapm', 'obligations_proved': int(m.group(1)), 'distinct_states': 0,
+            'states_generated': 0, 'wall_s': round(time.time() - t0, 1)}
+
+
 def run_py(args, timeout=5400, env=None, stdin=None):
     p = subprocess.run([PY] + args, cwd=HARNESS, env=child_env(env), stdout=subprocess.PIPE,
                        stderr=subprocess.PIPE, text=True, timeout=timeout, input=stdin)
